@@ -10,6 +10,7 @@ Ground truth kept here, independent of the scheduler's own bookkeeping:
 
 import contextlib
 import datetime
+import os
 import warnings
 
 from hypothesis import strategies as st
@@ -123,10 +124,42 @@ def reset_world():
     dawgie.context.db_lock = False
 
 
+class RealDB:
+    '''the StubDB surface backed by the real shelve store'''
+
+    def __init__(self, store):
+        self.store = store
+        self.next_calls = 0
+        self.issued = []
+        import dawgie.db.shelve as shelve_impl
+
+        self._impl = shelve_impl
+        self._real_next = shelve_impl.next
+        me = self
+
+        def counted_next():
+            me.next_calls += 1
+            r = me._real_next()
+            me.issued.append(r)
+            return r
+
+        shelve_impl.next = counted_next
+
+    @property
+    def target_list(self):
+        return [t for t in self.store.db.targets() if t != '__all__']
+
+    def _add(self, name):
+        return self.store.db.add(name)
+
+    def restore(self):
+        self._impl.next = self._real_next
+
+
 class Sim:
     # pylint: disable=too-many-instance-attributes,too-many-public-methods
     def __init__(self, spec, targets, bumped=(), auto_workers=0, rev='rev-0',
-                 clock=None):
+                 clock=None, real_store=False):
         import dawgie
         import dawgie.context
         import dawgie.pl.farm as farm
@@ -156,10 +189,20 @@ class Sim:
         dawgie.context.git_rev = rev
         self.fsm = FakeFSM()
         dawgie.context.fsm = self.fsm
-        self.db = world.StubDB().install()
-        self.db.target_list = list(targets)
-        self.root = world.fresh_dir('sim')
-        dawgie.context.data_dbs = self.root
+        self.store = None
+        if real_store:
+            # a real shelve store in a private directory (end-to-end parts)
+            self.store = rig.ShelveRig()
+            self.db = RealDB(self.store)
+            for t in targets:
+                self.db._add(t)
+            self.root = self.store.root
+            os.makedirs(os.path.join(self.root, 'chron'), exist_ok=True)
+        else:
+            self.db = world.StubDB().install()
+            self.db.target_list = list(targets)
+            self.root = world.fresh_dir('sim')
+            dawgie.context.data_dbs = self.root
         self.clock = clock or world.Clock(
             datetime.datetime(2024, 3, 1, 12, 0, 0, tzinfo=datetime.UTC)
         )
@@ -302,7 +345,11 @@ class Sim:
             w.closed = True
         reset_world()
         self.stack.close()
-        world.rm(self.root)
+        if self.store is not None:
+            self.db.restore()
+            self.store.close()
+        else:
+            world.rm(self.root)
 
     def _targets_of(self, tag, targets):
         '''what a request for ``targets`` means for algorithm ``tag``'''
@@ -490,7 +537,7 @@ class Sim:
         name = TARGET_POOL[i % len(TARGET_POOL)]
         self.db._add(name)
 
-    def reply(self, k, outcome, mask, metric=True):
+    def reply(self, k, outcome, mask, metric=True, explicit=None):
         '''deliver the result of the k-th handed unit, exactly as
         worker.cluster.execute does (new connection, one response message)'''
         import dawgie.pl.message as message
@@ -502,7 +549,12 @@ class Sim:
         m = u.msg
         values = None
         newset = set()
-        if outcome == 'success':
+        if explicit is not None:
+            values = list(explicit)
+            for name, isnew in values:
+                if isnew and '.__metric__.' not in name:
+                    newset.add('.'.join(name.split('.')[2:]))
+        elif outcome == 'success':
             values = []
             outs = self.ref.values[u.jobid]
             for j, vn in enumerate(outs):
@@ -531,6 +583,26 @@ class Sim:
         self.reply_job_queued = any(j.tag == u.jobid for j in self.sched.que)
         message.send(resp, sock)
         return u, newset
+
+    def execute(self, k):
+        '''run the k-th handed unit for real: worker.Context.run in this
+        process against the real store, then deliver what it reports'''
+        import importlib
+
+        import dawgie.pl.worker
+
+        hs = self.handed()
+        if not hs:
+            return None
+        u = hs[k % len(hs)]
+        m = u.msg
+        ctx = dawgie.pl.worker.Context(('localhost', rig.FARM_PORT), self.rev)
+        factory = getattr(importlib.import_module(m.factory[0]), m.factory[1])
+        with self.store.worker_side():
+            nv = ctx.run(factory, 0, m.jobid, m.runid, m.target,
+                         dict(m.timing))
+        idx = hs.index(u)
+        return self.reply(idx, 'success', 0, explicit=list(nv))
 
     def expect_after_success(self, u, newset):
         '''(tag, target) pairs that must become pending after this report'''
@@ -621,6 +693,12 @@ class Sim:
                 ev['unit'], ev['newset'] = r
                 ev['job_queued'] = self.reply_job_queued
                 ev['outcome'] = OUTCOMES[op[2] % 3]
+        elif kind == 'exec':
+            r = self.execute(op[1])
+            if r is not None:
+                ev['unit'], ev['newset'] = r
+                ev['outcome'] = 'success'
+                ev['job_queued'] = self.reply_job_queued
         elif kind == 'tgt':
             self.add_target(op[1])
         elif kind == 'pause':
@@ -641,7 +719,7 @@ class Sim:
         ev['calls'] = self.calls
         ev['errors'] = self.errors[nerr:]
         # justification bookkeeping (C02 minimality)
-        if kind == 'rep' and 'unit' in ev:
+        if kind in ('rep', 'exec') and 'unit' in ev:
             u = ev['unit']
             if ev['outcome'] == 'success':
                 fb = any(v in self.ref.feedbacks for v in ev['newset'])
